@@ -40,7 +40,7 @@ class GwRig:
 
 
 class EzspRig:
-    HIGH = ("readCounters", "nop", "readAndClearCounters")
+    HIGH = ("readCounters", "nop", "readAndClearCounters", "getValue")
     MID = ("getNodeId", "getEui64x")
     LOW = ("sendUnicast", "sendMulticast", "sendBroadcast")
 
@@ -116,6 +116,8 @@ class EzspRig:
                 return int(result[0][0])
             if name in ("sendUnicast", "sendMulticast", "sendBroadcast"):
                 return int(result[1])
+            if name == "getValue":
+                return int(bytes(result[1])[0]) if result[1] else 0
             if name == "stackStatusHandler":
                 return int(result[0]) & 0xFF
             if name == "echo":
@@ -137,6 +139,9 @@ class EzspRig:
         if name in ("sendUnicast", "sendMulticast", "sendBroadcast"):
             st = list(rx.values())[0]
             return [st(0), val]
+        if name == "getValue":
+            st = list(rx.values())[0]
+            return [st(0), bytes([val & 0xFF])]
         if name == "stackStatusHandler":
             st = list(rx.values())[0]
             return [st(val)]
@@ -180,6 +185,13 @@ class EzspRig:
                         r = await self.ezsp.send_broadcast(address=t.BroadcastAddress.ALL_DEVICES, aps_frame=aps, radius=3, message_tag=c & 0xFF,
                                                            aps_sequence=c & 0xFF, data=b"z")
                     val = int(r[1])
+                elif cmd == "getValue":
+                    # the watchdog's free-buffer read; the argument is passed by keyword (as the watchdog does) or positionally
+                    if c % 2:
+                        r = await self.ezsp.getValue(valueId=t.EzspValueId.VALUE_FREE_BUFFERS)
+                    else:
+                        r = await self.ezsp.getValue(t.EzspValueId.VALUE_FREE_BUFFERS)
+                    val = self._val(cmd, list(r))
                 elif cmd in ("getNodeId", "readCounters", "readAndClearCounters", "nop"):
                     r = await getattr(self.ezsp, cmd)()
                     val = self._val(cmd, list(r))
@@ -215,7 +227,7 @@ class EzspRig:
 
     async def frame(self, seq, cmd, val, modes=(), raw=None, kind="frame"):
         self.gw.modes = list(modes)
-        if raw is None and cmd not in ("getNodeId", "readCounters", "readAndClearCounters", "sendUnicast", "sendMulticast", "sendBroadcast", "stackStatusHandler"):
+        if raw is None and cmd not in ("getNodeId", "readCounters", "readAndClearCounters", "sendUnicast", "sendMulticast", "sendBroadcast", "stackStatusHandler", "getValue"):
             val = 0                           # no payload slot that could carry a token
         data = raw if raw is not None else self.helper.encode(self.layout, seq, cmd, self.values_for(cmd, val))
         raised = 0
